@@ -657,6 +657,7 @@ def interp(I, x, xp, fp, left=None, right=None):
         last = sym.sub(n, 1)
         inside = sym.And(sym.ge(v, xp.get(0)), sym.lt(v, xp.get(last)))
         return sym.Implies(inside, sym.And(sym.ge(k, 0), sym.lt(k, last), sym.le(xp.get(k), v), sym.lt(v, xp.get(sym.add(k, 1)))))
+    I.ctx.ghost.setdefault('interp', []).append(dict(cell=lambda v: cell(sym.to_z3(sym.to_real(v))), xp=xp, fp=fp, n=n))
     if isinstance(x, SArr):
         r = SArr(x.shape, lambda q: value(x.get(q)), 'f', tag='interp')
         r.axiom = lambda q: cell_axiom(x.get(q))   # instantiate for the element under study
